@@ -927,6 +927,20 @@ class ConvertInstance:
             IdMap() if template is None else template
         )
 
+        # temporaries that are connected to ports of entity instances
+        # (instances created inside a context take expression results as actuals),
+        # they are read by the port map and not by the context that computes them
+        self._instance_port_temporaries = IdSet()
+
+    def _collect_instance_port_temporaries(self, block):
+        if isinstance(block, out.Entity):
+            for actual in block.port_definitions().values():
+                if isinstance(actual, Temporary):
+                    self._instance_port_temporaries.add(actual._root)
+        elif isinstance(block, out.Block):
+            for subblock in block.subblocks():
+                self._collect_instance_port_temporaries(subblock)
+
     def lookup_template(self, source: out.EntityTemplate) -> ir.EntityTemplate | None:
         if source in self._entity_templates:
             return self._entity_templates[source]
@@ -1056,8 +1070,11 @@ class ConvertInstance:
         search_invalid_temporaries(ctx.code())
 
     @staticmethod
-    def cleanup_unused(ctx: ir.Context):
+    def cleanup_unused(ctx: ir.Context, used_elsewhere: IdSet | None = None):
         used_temporaries = IdSet()
+
+        if used_elsewhere is not None:
+            used_temporaries.update(used_elsewhere)
 
         def find_used_temp(obj, access: AccessFlags):
             if access.is_read() and isinstance(obj, Temporary):
@@ -1141,6 +1158,9 @@ class ConvertInstance:
                 ir_template = self.lookup_template(inp)
 
                 if ir_template is None:
+                    for block in inp.subblocks():
+                        self._collect_instance_port_temporaries(block)
+
                     ir_template = ir.EntityTemplate(
                         inp._info,
                         [self.apply(block) for block in inp.subblocks()],
@@ -1191,7 +1211,9 @@ class ConvertInstance:
                 result.visit_referenced_objects(check_variables_and_temporaries)
 
                 if result.attributes.get("cleanup_unused", True):
-                    result = ConvertInstance.cleanup_unused(result)
+                    result = ConvertInstance.cleanup_unused(
+                        result, self._instance_port_temporaries
+                    )
 
                 if result.attributes.get("zero_init_temporaries", False):
                     # only used for unit tests
@@ -1212,7 +1234,9 @@ class ConvertInstance:
                 ConvertInstance.detect_uninitialized_temporaries(result)
 
                 if result.attributes.get("cleanup_unused", True):
-                    result = ConvertInstance.cleanup_unused(result)
+                    result = ConvertInstance.cleanup_unused(
+                        result, self._instance_port_temporaries
+                    )
                 if result.attributes.get("cleanup_bool_cast", True):
                     result = ConvertInstance.cleanup_bool_cast(result)
                 if result.attributes.get("zero_init_temporaries", False):
